@@ -28,7 +28,13 @@ VendorCases ==
     {[op |-> "dispatch", tag |-> "vendor-constructed", proto |-> "ctap2-vendor", variant |-> "Vendor", wire |-> <<c>>,
       script |-> s, hasLb |-> TRUE] : c \in 64..127, s \in {[ok |-> TRUE, err |-> 0], [ok |-> FALSE, err |-> 39]}}
 
-MC_Cases == Ctap2Cases \cup Ctap1Cases \cup VendorCases
+\* CTAP1 requests built directly (key handles longer than an APDU could carry, every control byte)
+Ctap1Constructed ==
+    {[op |-> "dispatch", tag |-> "ctap1-constructed", proto |-> "ctap1-constructed", variant |-> "Authenticate",
+      wire |-> <<ctl>> \o Pattern(7, n), script |-> s, hasLb |-> TRUE] :
+        ctl \in U2fControlBytes, n \in {0, 1, 255, 256, 257, 1024}, s \in Scripts1}
+
+MC_Cases == Ctap2Cases \cup Ctap1Cases \cup VendorCases \cup Ctap1Constructed
 
 (***************************************************************************)
 (* C10 on the model                                                        *)
